@@ -459,6 +459,9 @@ JudgeEmit(tr, T, ev) ==
        /\ r1.rack = a.rack.s /\ r1.pos = a.pos.v /\ r1.cents = VolCents(a.vol)
        /\ r1.lc = kv.lc /\ r1.tip = kv.tip /\ r1.rackid = kv.rackid /\ r1.racktype = kv.racktype
        /\ r1.tube = kv.tube /\ r1.frt = kv.frt /\ r1.tiptype = ""),
+    \* C10 at the lowest level: the mask of the record is the mask of THIS call's tip argument (nothing is inherited from
+    \* neighbouring records; no selection gives an empty field)
+    Cl("C10.wellmask", fn \in {"aspirate_well", "dispense_well"} /\ ok /\ n = 1 /\ TipArgValid(a.kw.tip), r1.tip = TipArgMask(a.kw.tip)),
     Cl("C09.well.bad", fn \in {"aspirate_well", "dispense_well"}
                        /\ ~(TextOK(a.rack, TRUE) /\ NatArg(a.pos) /\ VolArgValid(T, a.vol) /\ KwValid(a.kw)) /\ ~Foreign(a.pos),
        ~ok /\ none),
@@ -522,6 +525,10 @@ JudgeEvo(tr, T, ev) ==
     Cl("C13.accept", expressible /\ canonical /\ feasible /\ a.labelok /\ ~a.foreign, ok),
     Cl("C13.reject", ~expressible /\ wellsok /\ shaped, ~ok /\ cmds = <<>>),
     Cl("C13.rejectshape", wellsok /\ ~shaped /\ tipsok, ~ok /\ cmds = <<>>),
+    \* C02 for the script commands: a command whose total demand on a real well would break a limit is refused with the
+    \* corresponding error (every tip of a scalar volume counts), volumes as the sequential run leaves them
+    Cl("C02.outcome", expressible /\ canonical /\ wellsok /\ shaped /\ ~feasible /\ ~a.foreign,
+       ev.out = (IF isAsp THEN rr.out ELSE ra.out)),
     Cl("C13.tracking", ok /\ feasible, post.vol[k] = (IF isAsp THEN rr.vol ELSE ra.vol)),
     \* C04 for the script commands: every real well changes by exactly what was asked for (not by the rounded command text)
     Cl("C04.evo", ok /\ feasible, post.vol[k] = (IF isAsp THEN rr.vol ELSE ra.vol)),
@@ -531,6 +538,10 @@ JudgeEvo(tr, T, ev) ==
     Cl("C13.echo", ok /\ Len(cmds) = 1,
        c.lc = a.lc.s /\ c.arm = a.arm.v /\ c.grid = a.grid.v /\ c.site = a.site.v - 1),
     Cl("C10.evomask", ok /\ Len(cmds) = 1 /\ tipsok, c.mask = MaskOfSet(Range(tn))),
+    \* C12 inside the command: the selection string has the geometry of the addressed labware (virtual rows for troughs)
+    \* and decodes to exactly the named wells
+    Cl("C12.command", ok /\ Len(cmds) = 1 /\ wellsok /\ shaped,
+       DecodeRows(c.sel) = IdRows(g) /\ DecodeCols(c.sel) = g.cols /\ DecodeWells(c.sel) = Range(ws)),
     Cl("C10.evoslots", ok /\ Len(cmds) = 1 /\ tipsok /\ shaped,
        /\ \A i \in 1..n : c.vols[tn[i]] = RecCents(T, vs[i])
        /\ \A t \in (1..8) \ Range(tn) : c.vols[t] = 0),
